@@ -904,6 +904,96 @@ pub fn gen_reshift_band_stream(rng: &mut Rng) -> (Compressor, Vec<u8>, Vec<u8>) 
     (c, out, raw)
 }
 
+/// one dynamic-Huffman block with far more than 65535 symbols: 140-300 KB of skewed 7-bit noise
+/// (no matches, 6-6.6 bits per symbol, so neither a stored nor a fixed block pays) compressed by
+/// libdeflate, whose blocks are limited by input length (300 000 bytes), not by symbol count
+pub fn gen_big_dynamic_block_stream(rng: &mut Rng) -> (Compressor, Vec<u8>, Vec<u8>) {
+    let n = rng.range(140_000, 300_000) as usize;
+    let skew = rng.range(1, 3);
+    let mut plain = Vec::with_capacity(n);
+    for _ in 0..n {
+        // minimum of `skew` draws: a monotone histogram, steeper with more draws
+        let mut v = rng.below(0x5f);
+        for _ in 1..skew {
+            v = v.min(rng.below(0x5f));
+        }
+        plain.push(0x20 + v as u8);
+    }
+    let c = Compressor::Libdeflate { level: rng.range(1, 12) as i32 };
+    let raw = c.compress(&plain);
+    (c, plain, raw)
+}
+
+/// text that ends with a long match (length 250..=258, mostly 255..=258) which stops 0-3 bytes
+/// before the end of the input: the last token, the look-ahead of lazy matching and the
+/// "enough input left" tests of the match finder all meet here
+pub fn gen_tail_match_stream(rng: &mut Rng) -> (Compressor, Vec<u8>, Vec<u8>) {
+    let target = rng.range(3000, 14000) as usize;
+    let mut plain = gen_plaintext(rng, target);
+    if plain.len() < 600 {
+        plain.resize(600, b'q');
+    }
+    let len = if rng.chance(3, 4) { rng.range(255, 258) } else { rng.range(250, 262) } as usize;
+    let from = rng.range(0, (plain.len() - len - 1) as u64) as usize;
+    let seg: Vec<u8> = plain[from..from + len].to_vec();
+    let next = plain[from + len];
+    // a byte that differs from the byte in front of the source, so that no longer match starts earlier
+    if from > 0 {
+        let b = plain[from - 1] ^ 0x55;
+        plain.push(b);
+    }
+    plain.extend_from_slice(&seg);
+    let tail = rng.range(0, 3) as usize;
+    for k in 0..tail {
+        // the first tail byte ends the match
+        plain.push(if k == 0 { next ^ 0x2a } else { rng.below(256) as u8 });
+    }
+    let c = match rng.below(5) {
+        0 | 1 => Compressor::Zlib {
+            level: rng.range(4, 9) as i32,
+            strategy: 0,
+            window_bits: 15,
+            mem_level: rng.range(7, 9) as i32,
+        },
+        _ => Compressor::random(rng),
+    };
+    let raw = c.compress(&plain);
+    (c, plain, raw)
+}
+
+/// the streams that the compressors write for an empty input (plaintext of size 0)
+pub fn gen_empty_plaintext_stream(rng: &mut Rng) -> (Compressor, Vec<u8>, Vec<u8>) {
+    let c = Compressor::random(rng);
+    let raw = c.compress(&[]);
+    (c, Vec::new(), raw)
+}
+
+/// a torn upload: a little junk, then one zlib- or gzip-wrapped member that sits at the very end
+/// of the file with the last 1-4 (zlib) or 1-8 (gzip) bytes of its trailer missing
+pub fn gen_cut_trailer_file(rng: &mut Rng) -> Vec<u8> {
+    let plain_len = rng_range(rng, 1100, 7000);
+    let plain = gen_plaintext(rng, plain_len);
+    let raw = Compressor::random(rng).compress(&plain);
+    let mut out = Vec::new();
+    for _ in 0..rng.below(40) {
+        out.push(0x80 | rng.below(0x7f) as u8);
+    }
+    if rng.chance(1, 4) {
+        // a complete member in front
+        let w = Wrapper::Zlib(rng.below(4) as u8);
+        let m = wrap(rng, &w, &raw, &plain);
+        out.extend_from_slice(&m);
+        for _ in 0..rng.below(9) {
+            out.push(0x80 | rng.below(0x7f) as u8);
+        }
+    }
+    let (w, max_cut) = if rng.chance(2, 3) { (Wrapper::Zlib(rng.below(4) as u8), 4) } else { (Wrapper::Gzip(0), 8) };
+    let m = wrap(rng, &w, &raw, &plain);
+    let cut = rng.range(1, max_cut) as usize;
+    out.extend_from_slice(&m[..m.len() - cut]);
+    out
+}
+
 /// a file whose single member compresses better than 258:1 (a run or a short period of
 /// `plain_len` bytes), wrapped without junk: the file is tiny compared with its expanded form
 pub fn gen_high_ratio_file(rng: &mut Rng, plain_len: usize) -> Vec<u8> {
@@ -1061,9 +1151,24 @@ pub fn gen_giant_block_stream(rng: &mut Rng) -> (Compressor, Vec<u8>, Vec<u8>) {
 /// of the 2 byte zlib header and/or the last chunk only 1-3 bytes of the Adler-32 (what writers
 /// with a fixed IDAT chunk size produce now and then), surrounded by a little junk
 pub fn gen_png_edge_file(rng: &mut Rng) -> Vec<u8> {
-    let plain_len = rng_range(rng, 1100, 9000);
-    let plain = gen_plaintext(rng, plain_len);
-    let raw = Compressor::random(rng).compress(&plain);
+    let (plain, raw) = if rng.chance(1, 2) {
+        // at the scanner's acceptance threshold (1024) from both sides, with a stream that is
+        // longer than its plaintext: incompressible bytes in stored blocks
+        let n = rng_range(rng, 985, 1040);
+        let mut plain = vec![0u8; n];
+        rng.fill(&mut plain);
+        let mut p = crate::lz77::Lz77Params::random(rng);
+        p.stored_every = 1;
+        p.empty_run = 0;
+        p.block_tokens = p.block_tokens.max(127);
+        let raw = crate::lz77::encode(&plain, &p);
+        (plain, raw)
+    } else {
+        let plain_len = rng_range(rng, 1100, 9000);
+        let plain = gen_plaintext(rng, plain_len);
+        let raw = Compressor::random(rng).compress(&plain);
+        (plain, raw)
+    };
     let mut z = Vec::with_capacity(raw.len() + 6);
     z.push(0x78);
     z.push(*rng.pick(&[0x01u8, 0x5e, 0x9c, 0xda]));
